@@ -237,7 +237,7 @@ def encode_primary_raw(p, crc):
     return a
 
 
-def bpsec_cose_aad(bundle, sec_source, scope, target, addl_protected=b''):
+def bpsec_cose_aad(bundle, sec_source, scope, target, addl_protected=b'', secblk=None):
     ''' External AAD of draft-ietf-bpsec-cose section 2.5.1, built from a *decoded* bundle: encoded security source,
     canonical scope map, then per scope entry in CBOR key order the primary block (whole encoding) or the
     metadata (type, number, flags) / data of a canonical block, then the additional protected parameters. '''
@@ -249,7 +249,7 @@ def bpsec_cose_aad(bundle, sec_source, scope, target, addl_protected=b''):
                 p = bundle['primary']
                 out = out + enc(encode_primary_raw(p, p.get('crc')) if 'crc' in p else encode_primary_raw(p, None)[:-1])
             continue
-        blk = target if k == -1 else [b for b in bundle['blocks'] if bool(b['num'] == k)][0]
+        blk = target if k == -1 else secblk if k == -2 else [b for b in bundle['blocks'] if bool(b['num'] == k)][0]
         if fl & 1:
             out = out + enc(blk['type']) + enc(blk['num']) + enc(blk['flags'])
         if fl & 2:
